@@ -44,7 +44,11 @@ def shrink_case(plugin, exe, oracle_exe, text, case_timeout, harness_env=None, b
         return text
     t_end = time.time() + budget
 
+    valid = getattr(plugin, "valid", lambda t: True)
+
     def fails(t):
+        if not valid(t):
+            return False
         a = core.run_lines(exe, [(0, t)], case_timeout, env=harness_env)
         v = core.run_lines(oracle_exe, [(0, "%s => %s" % (t, a.get(0, "noanswer")))], 60)
         return parse_verdict(v.get(0, "noverdict"))[0] == "fail"
